@@ -38,6 +38,80 @@ def _is_dag_expr(e: ast.AST) -> bool:
     return isinstance(e, ast.Attribute) and e.attr == "dag"
 
 
+def rule_index_keys_stay(ctx: Ctx) -> None:
+    """index.key-stays: several readers subscript the label index directly (`node_dict["one-qubit"]`, `node_dict["Input"]`, ...), some of
+    them inside loops that remove nodes: they rely on a key, once created, staying in the dictionary with a possibly empty list.  So no
+    function may delete keys from node_dict (del / pop / popitem / clear / re-binding to a filtered dict outside __init__) — unless every
+    subscript read is guarded by `key in node_dict` in a position where no removal can intervene."""
+    repo = ctx.repo
+    m = repo.module(DAG)
+    writers = []
+    for mm in repo.modules.values():
+        for fn in mm.functions():
+            for x in ast.walk(fn):
+                if isinstance(x, ast.Delete):
+                    for t in x.targets:
+                        if isinstance(t, ast.Subscript) and norm(t.value).endswith("node_dict"):
+                            writers.append((mm, fn, x))
+                elif isinstance(x, ast.Call) and call_attr(x) in ("pop", "popitem", "clear") and isinstance(x.func, ast.Attribute) and norm(x.func.value).endswith("node_dict"):
+                    writers.append((mm, fn, x))
+                elif isinstance(x, ast.Assign) and any(norm(t).endswith(".node_dict") for t in x.targets) and fn.name not in ("__init__", "copy", "_copy", "__deepcopy__") \
+                        and isinstance(x.value, (ast.DictComp, ast.Call)) and not (isinstance(x.value, ast.Call) and call_name(x.value) in ("copy.deepcopy", "deepcopy", "dict")):
+                    if isinstance(x.value, ast.DictComp) and x.value.generators and x.value.generators[0].ifs:
+                        writers.append((mm, fn, x))
+    readers = []
+    REMOVALS = {"remove_op", "_remove_node", "_node_dict_remove", "remove_identity", "unwrap_nodes"}
+    for mm in repo.modules.values():
+        if not mm.rel.startswith(("graphiq/circuit/", "graphiq/utils/circuit_comparison", "graphiq/solvers/", "graphiq/metrics")):
+            continue
+        for fn in mm.functions():
+            if fn.name in ("_node_dict_append", "_node_dict_remove"):
+                continue
+            for x in ast.walk(fn):
+                if isinstance(x, ast.Subscript) and isinstance(x.ctx, ast.Load) and norm(x.value).endswith(".node_dict") and isinstance(x.slice, ast.Constant):
+                    key = x.slice.value
+                    guarded = False
+                    q = x
+                    in_removing_loop = False
+                    while parent(q) is not None and q is not fn:
+                        pq = parent(q)
+                        if isinstance(pq, (ast.For, ast.While)) and any(call_attr(c) in REMOVALS for c in calls_in(pq)):
+                            in_removing_loop = True
+                        if isinstance(pq, ast.If) and any(q is b for b in pq.body):
+                            t = pq.test
+                            if isinstance(t, ast.Compare) and len(t.ops) == 1 and isinstance(t.ops[0], ast.In) and isinstance(t.left, ast.Constant) \
+                                    and t.left.value == key and norm(t.comparators[0]).endswith("node_dict") and not in_removing_loop:
+                                guarded = True
+                        q = pq
+                    if not guarded:
+                        readers.append((mm, fn, x))
+    if not readers:
+        raise AnalysisError("index.key-stays: no direct subscript read of node_dict found (the readers this rule protects)")
+    ctx.touch(m)
+    if writers:
+        mm, fn, w = writers[0]
+        rm, rf, rx = readers[0]
+        # prefer a reader inside a removing loop as the example
+        for cand in readers:
+            if any(isinstance(a, (ast.For, ast.While)) for a in ancestors_list(cand[2], cand[1])):
+                rm, rf, rx = cand
+                break
+        ctx.fail("index.key-stays", mm, w,
+                 f"{qualname(fn)} deletes keys from node_dict (`{short(w, 60)}`), but {len(readers)} readers subscript the index without a guard, e.g. "
+                 f"`{short(rx)}` in {qualname(rf)} ({rm.rel}:{rx.lineno}): once the last node of a label is gone the read raises KeyError in the middle of "
+                 f"the edit and leaves the circuit half rewritten", func=qualname(fn), construct=f"{qualname(fn)}: deletes node_dict keys")
+    else:
+        ctx.ok("index.key-stays", m, m.tree, what=f"no function deletes node_dict keys; {len(readers)} unguarded subscript readers rely on that")
+
+
+def ancestors_list(x, fn):
+    out, q = [], x
+    while parent(q) is not None and q is not fn:
+        q = parent(q)
+        out.append(q)
+    return out
+
+
 def rule_own_dag(ctx: Ctx) -> None:
     repo = ctx.repo
     n = 0
@@ -63,7 +137,29 @@ def rule_own_dag(ctx: Ctx) -> None:
                 ctx.touch(m, fn)
                 inside = m.rel == DAG and enclosing_class(fn) is not None and enclosing_class(fn).name == "CircuitDAG"
                 if need is not None and inside and need in helpers:
-                    ctx.ok("own.dag", m, c, what=f"{a} paired with {need}")
+                    # the index update runs under exactly the conditions of the graph mutation (loops apart): an update guarded by a
+                    # test the mutation is not guarded by leaves edges / nodes in the graph that the index never lists
+                    def _ifs(x):
+                        out, q = set(), x
+                        while parent(q) is not None and q is not fn:
+                            pq = parent(q)
+                            if isinstance(pq, ast.If):
+                                out.add((id(pq), "body" if any(q is b for b in pq.body) else "orelse" if any(q is b for b in pq.orelse) else "test"))
+                            q = pq
+                        return out
+                    direct = [x for x in body_calls if call_attr(x) == need and (call_name(x) or "").startswith("self.")]
+                    cond_c = _ifs(c)
+                    guarded = [x for x in direct if _ifs(x) - cond_c]
+                    if direct and len(guarded) == len(direct):
+                        g = guarded[0]
+                        extra = [pq for pq in ancestors_list(g, fn) if isinstance(pq, ast.If) and not any(pq is y for y in ancestors_list(c, fn))]
+                        ctx.fail("own.dag", m, g,
+                                 f"`{short(c, 60)}` changes the circuit graph unconditionally, but the matching index update `{short(g, 60)}` only runs under "
+                                 f"`{short(extra[0].test) if extra else '?'}`: on the other path the graph holds an entry that {need.replace('_append', '').replace('_remove', '').strip('_')} never lists "
+                                 f"(a second wire between the same two operations has the same end points as the first)",
+                                 func=qualname(fn), construct=f"{qualname(fn)}: {need} conditional, {a} not")
+                    else:
+                        ctx.ok("own.dag", m, c, what=f"{a} paired with {need}")
                 else:
                     ctx.fail("own.dag", m, c,
                              f"`{short(c, 90)}` changes the circuit graph " + (f"without the matching index update `{need}` in the same "
@@ -480,6 +576,7 @@ def _ancs(n):
 
 def run(ctx: Ctx) -> None:
     rule_reg_ensure(ctx)
+    rule_index_keys_stay(ctx)
     rule_reg_create(ctx)
     rule_validate_shape(ctx)
     from .c13 import rule_rewrite_order
@@ -533,6 +630,8 @@ _REPLACE_TABLE = ("        for operation, update_entry in (\n"
 
 
 KNOCKOUTS = [
+    Knockout("node-dict-drops-empty-keys", DAG, sub_once("            except ValueError:\n                pass\n\n    def _edge_dict_append", "            except ValueError:\n                pass\n            if not self.node_dict[key]:\n                del self.node_dict[key]\n\n    def _edge_dict_append"), "index.key-stays", "deletes node_dict keys"),
+    Knockout("edge-index-only-for-new-node-pairs", DAG, sub_once("        self._edge_dict_append(reg_type, (in_node, out_node, label))\n\n    def _remove_edge", "        if not self.dag.has_edge(in_node, out_node):\n            self._edge_dict_append(reg_type, (in_node, out_node, label))\n\n    def _remove_edge"), "own.dag", "conditional"),
     Knockout("replace-op-table-driven-old-type-key", DAG, sub_once(_REPLACE_BLOCKS, _REPLACE_TABLE), "sibling.nodekeys", "old"),
     Knockout("register-gap-accepted", DAG, sub_once("        elif register > len(self._registers[reg_type]):", "        elif register > len(self._registers[reg_type]) + 1:") if False else sub_once("        if register == len(self._registers[reg_type]):\n            self._registers[reg_type].append(1)", "        if register >= len(self._registers[reg_type]):\n            self._registers[reg_type].append(1)"), "reg.create", "register = n+1"),
     Knockout("wire-created-when-present", DAG, sub_once('        if f"{reg_type}{register}_in" not in self.dag.nodes:', '        if f"{reg_type}{register}_in" in self.dag.nodes:'), "reg.create", "absent"),
